@@ -31,9 +31,9 @@ func VerifCodecRawDetails(c Certificate) []byte {
 	return nil
 }
 
-// VerifCodecIssue is the tail of SignWith (fromTBSCertificate incl. validate, marshalForSigning, sp, setSignature)
-// with a caller-chosen issuer string, so that issuers of any length reach the encoders. No normalisation of the
-// signature: the bytes sp returns are the certificate's signature.
+// VerifCodecIssue is a copy of the tail of SignWith (fromTBSCertificate incl. validate, marshalForSigning, sp,
+// setSignature) with a caller-chosen issuer string and WITHOUT SignWith's guards (CA flag, constraints, size of the
+// result). The harness uses it only to learn how long a certificate that SignWith refused would have been.
 func VerifCodecIssue(t *TBSCertificate, issuer string, sp SignerLambda) (Certificate, error) {
 	tt := *t
 	tt.issuer = issuer
@@ -61,4 +61,23 @@ func VerifCodecIssue(t *TBSCertificate, issuer string, sp SignerLambda) (Certifi
 		return nil, err
 	}
 	return c.(Certificate), nil
+}
+
+// VerifCodecWithSignature returns a copy of c carrying another signature (what an attacker who re-encodes a
+// certificate with the low/high-S twin of its signature, or with any other bytes, ends up presenting).
+func VerifCodecWithSignature(c Certificate, sig []byte) (Certificate, error) {
+	nc := c.Copy()
+	var err error
+	switch v := nc.(type) {
+	case *certificateV1:
+		err = v.setSignature(sig)
+	case *certificateV2:
+		err = v.setSignature(sig)
+	default:
+		err = ErrUnknownVersion
+	}
+	if err != nil {
+		return nil, err
+	}
+	return nc, nil
 }
